@@ -3,6 +3,7 @@
 
 import functools
 import itertools
+import math
 import numbers
 import typing
 import warnings
@@ -1151,6 +1152,12 @@ def _reduce_unrelated_vars(op, arg, reduced_vars):
                 if v.dtype != "real"
             ],
         )
+        if op in (ops.max, ops.min, ops.or_, ops.and_):
+            # Idempotent: reducing copies of arg leaves arg unchanged.
+            return arg.reduce(op, reduced_vars), None
+        if op is ops.logaddexp:
+            arg = (arg + math.log(multiplicity)).reduce(op, reduced_vars)
+            return arg, None
         for add_op, mul_op in ops.DISTRIBUTIVE_OPS:
             if add_op is op:
                 arg = mul_op(arg, multiplicity).reduce(op, reduced_vars)
